@@ -135,7 +135,8 @@ PROPS = {
         "assumptions": TRUST,
     },
     "C17": {
-        "engines": ["E1 Kani/CBMC"],
+        "engines": ["E1 Kani/CBMC", "E2 mirsym+z3/cvc5"],
+        "e2": True,
         "functions": [
             ("rsass::value::range::ValueRange::new", "value/range.rs", r"pub fn new\(from: i64"),
             ("<ValueRange as Iterator>::next", "value/range.rs", r"fn next\(&mut self\)"),
@@ -144,7 +145,7 @@ PROPS = {
             "quick": "all from,to in [-6,6] (the property's range), both through/to, with a unit; unitless on spans <= 4; |to-from| <= 3 "
                      "anywhere in i64 including the limits (iteration count)",
         },
-        "outside": "@if/@each/@while dispatch in transform.rs, destructuring, SrcRange::evaluate's unit conversion of `to` (evaluator)",
+        "outside": "@if/@each/@while dispatch in transform.rs, destructuring (SrcRange::evaluate's wiring and the unit conversion of `to` are decided structurally by E2 k_for_bounds)",
         "stubs": KANI_STUBS,
         "assumptions": TRUST,
     },
